@@ -38,6 +38,11 @@ type Case struct {
 	CRTail bool     `json:"cr_tail,omitempty"` // a rule line ends in CR without LF, or in CR CR LF
 	Probes []string `json:"probes,omitempty"`
 	Perms  bool     `json:"perms,omitempty"` // also insert the suffix rules in every order
+	HintPanic bool  `json:"hint_panic,omitempty"` // the capacity hint exceeds the precondition of make([]string, 0, n)
+
+	// dlc (converter input)
+	Tag     string     `json:"tag,omitempty"`
+	Entries []DlcEntry `json:"entries,omitempty"`
 
 	// prefixset
 	Prefixes []string `json:"prefixes,omitempty"`
@@ -100,7 +105,7 @@ type engine struct {
 func main() {
 	o := common.ParseFlags()
 	rep := common.NewReport("C10", o)
-	engines := []engine{portsetEngine(), domainsetEngine(), prefixsetEngine()}
+	engines := []engine{portsetEngine(), domainsetEngine(), prefixsetEngine(), dlcEngine()}
 	for _, e := range engines {
 		rep.Engines = append(rep.Engines, e.name)
 	}
@@ -109,6 +114,7 @@ func main() {
 		"domainset: a case = rule list (domain/suffix/keyword/regexp over a 6-label vocabulary incl. the empty label, sizes {0,1,4,5,16,17,100} per kind) rendered as text with CRLF/blank/comment/hint noise; " +
 		"representations text, gob, text>text, gob>text, text>text>gob, 3 direct builder combinations and their gob conversion (and every insertion order of <= 4 (quick) / 6 (thorough) suffix rules) are probed on 30 (quick) / 60 (thorough; every 8th case all 1554) names of <= 4 labels from the vocabulary + neighbours of the rules (rule, label.rule, labelrule, rule.label, .rule, rule., rule minus a byte at either end, rule minus its first label); " +
 		"non-trivial = at least one probe matches and one does not; distinct by (rules, text). " +
+		"dlc: a case = v2fly/dlc entries (full:/domain:/keyword:/regexp:, optional single attribute after one separator byte) + comment/blank/CRLF noise + a -tag value, converted by the real converter binary (child process) to text and gob; both outputs are loaded and probed against the language of the selected entries and against the model; malformed lines (no separator, several attributes, '@' first, unknown prefix, `full:@x`) are compared with the model only; non-trivial = some probe matches and some does not; distinct by (tag, text). " +
 		"prefixset: a case = prefix list + boundary addresses; load, write (both writers), reload, compare membership and prefix sets; non-trivial = at least one prefix; distinct by text."
 
 	var err error
